@@ -160,7 +160,25 @@ func (g *gen) parentFor(h uint64, cr uint32) ([]byte, tmconsensus.CommitProof, b
 		return nil, tmconsensus.CommitProof{}, false
 	}
 	idxs := g.w.quorumSubset(g.rng, h-1, g.pick(3) == 0)
-	cp := g.w.commitProofFor(h-1, cr, ph, idxs, nil)
+	var others map[string][]int
+	if g.pick(2) == 0 {
+		// Proposers also report the nil precommits they saw: some of the validators whose
+		// nil precommit for that round was delivered before (so nothing new is signed here).
+		// The node then holds both targets already, and a proof may add to one and not to
+		// the other.
+		g.w.mu.Lock()
+		var nils []int
+		for i := range g.w.delivered[voteKey{kindPrecommit, h - 1, cr, ""}] {
+			nils = append(nils, i)
+		}
+		g.w.mu.Unlock()
+		sort.Ints(nils)
+		if len(nils) > 0 {
+			g.rng.Shuffle(len(nils), func(a, b int) { nils[a], nils[b] = nils[b], nils[a] })
+			others = map[string][]int{"": nils[:1+g.pick(len(nils))]}
+		}
+	}
+	cp := g.w.commitProofFor(h-1, cr, ph, idxs, others)
 	return []byte(ph), cp, true
 }
 
